@@ -3,6 +3,7 @@ from .common import run_panic_inventory
 
 SCOPE = "engine"
 LEVEL = "other"
+PANIC_PROFILES = True
 EXPLANATION = (
     "Static analysis of the resolved MIR. R1: panic-site inventory of everything reachable from "
     "CommandParser::{new,parse}, UciMove::from_str and UciMove::fmt (call graph over resolved callees, closures and "
@@ -19,9 +20,13 @@ def entries(prog):
     return [P + "new", P + "parse", "inkayaku_uci::uci::<UciMove as FromStr>::from_str", "inkayaku_uci::uci::<UciMove as Display>::fmt"]
 
 
-def run(ctx):
+def run_panics(ctx):
     run_panic_inventory(ctx, "C15.R1", entries(ctx.prog),
                         "no unreviewed panic site (overflow/bounds/div assert, panic!, unwrap, indexing, RefCell) is reachable from the UCI command parser and the move parser",
-                        fn_floor=45, site_floor=15)
+                        fn_floor=45, site_floor=12)
+
+
+def run(ctx):
+    run_panics(ctx)
     from . import c15_struct
     c15_struct.run(ctx)
